@@ -204,3 +204,54 @@ impl Cfg {
         })
     }
 }
+
+/// Byte strings on case lines: `-` (empty) or `+`-joined segments, each plain lower-case hex or `~<n>*<hh>`
+/// (the byte `hh` repeated `n` times). Canonical form (used for output on both sides): a maximal run of
+/// >= 8 equal bytes becomes a `~` segment, everything else is plain hex.
+pub fn hx(b: &[u8]) -> String {
+    if b.is_empty() {
+        return "-".to_string();
+    }
+    let mut segs: Vec<String> = vec![];
+    let mut plain = String::new();
+    let mut i = 0;
+    while i < b.len() {
+        let mut j = i;
+        while j < b.len() && b[j] == b[i] {
+            j += 1;
+        }
+        if j - i >= 8 {
+            if !plain.is_empty() {
+                segs.push(std::mem::take(&mut plain));
+            }
+            segs.push(format!("~{}*{:02x}", j - i, b[i]));
+        } else {
+            for x in &b[i..j] {
+                let _ = write!(plain, "{:02x}", x);
+            }
+        }
+        i = j;
+    }
+    if !plain.is_empty() {
+        segs.push(plain);
+    }
+    segs.join("+")
+}
+
+pub fn unhx(s: &str) -> Vec<u8> {
+    if s == "-" {
+        return vec![];
+    }
+    let mut out = vec![];
+    for seg in s.split('+') {
+        if let Some(rest) = seg.strip_prefix('~') {
+            let (n, h) = rest.split_once('*').expect("bad run segment");
+            let n: usize = n.parse().expect("bad run length");
+            let b = u8::from_str_radix(h, 16).expect("bad run byte");
+            out.extend(std::iter::repeat(b).take(n));
+        } else {
+            out.extend(unhex(seg));
+        }
+    }
+    out
+}
